@@ -183,6 +183,21 @@ def run_C16(seed, tier):
                                             what='build-script helper with user_context_type and derives (%s) does not produce the code of the library call with the same settings' % order))
         else:
             res['strict'].append(dict(kind='routes', grammar=ug, what='library call with a user context type failed'))
+        # the same helper call in a fresh process must give the same bytes whatever an earlier build left behind: compile
+        # with one derive set, then with another into the same destination (known finding K6: the header does not cover the settings)
+        sg = "@export\nS = a:A;\nA = 'a';\n"
+        sp = os.path.join(d, 'settings.ebnf')
+        open(sp, 'w').write(sg)
+        sdst = os.path.join(d, 'settings.rs')
+        subprocess.run([PVUNIT, 'compile', sp, sdst, '-', 'Debug,Clone'], stdout=subprocess.PIPE, stderr=subprocess.PIPE, text=True, timeout=120)
+        subprocess.run([PVUNIT, 'compile', sp, sdst, '-', 'Debug,Clone,PartialEq'], stdout=subprocess.PIPE, stderr=subprocess.PIPE, text=True, timeout=120)
+        fresh = os.path.join(d, 'settings_fresh.rs')
+        subprocess.run([PVUNIT, 'compile', sp, fresh, '-', 'Debug,Clone,PartialEq'], stdout=subprocess.PIPE, stderr=subprocess.PIPE, text=True, timeout=120)
+        res['evaluations'] += 1
+        res['nontrivial'].add(('settings', 'changed derives, existing destination'))
+        if os.path.exists(sdst) and os.path.exists(fresh) and open(sdst).read() != open(fresh).read():
+            res['prop'].append(dict(kind='routes', label='settings-change-existing-destination', grammar=sg, derives='Debug,Clone -> Debug,Clone,PartialEq', prefix='',
+                                    what='build-script helper: after the derive set changed, the destination of the earlier build is kept (a fresh destination gets different code)'))
         # the macro route
         from . import macroroute
         mr = macroroute.run_macro(seed, tier)
